@@ -146,6 +146,8 @@ def run(ctx):
                         return all(nz(a, depth + 1) for a in args)
                 if k == "Binary" and n["op"] == "*":
                     return nz(n["l"], depth + 1) and nz(n["r"], depth + 1)
+                if k == "Binary" and n["op"] == "<<" and H.lit_val(n["r"]) is not None:
+                    return nz(n["l"], depth + 1)         # x * 2^k in normal form
                 if k == "Binary" and n["op"] == "/":
                     # x / min(c, x) >= 1
                     r = res(n["r"])
@@ -208,9 +210,9 @@ def run(ctx):
             return out
         SEGC = "(ruzstd::dictionary::DictParams{segment_size: (core::cmp::Ord::min($1, 2048) as u32)}.segment_size as usize)"
         reviewed = {
-            "core::cmp::Ord::min(($1 / (($1 / %s) * 2)), 256)" % SEGC:
+            "core::cmp::Ord::min(($1 / (($1 / %s) << 1)), 256)" % SEGC:
                 "source/(2*segments) >= segment/2 >= 8 because segments = source/segment and 16 <= segment <= source",
-            "ruzstd::dictionary::cover::compute_epoch_info(ruzstd::dictionary::DictParams{segment_size: (core::cmp::Ord::min($1, 2048) as u32)}, $3, ($1 / 16)).1":
+            "ruzstd::dictionary::cover::compute_epoch_info(ruzstd::dictionary::DictParams{segment_size: (core::cmp::Ord::min($1, 2048) as u32)}, $3, ($1 >> 4)).1":
                 "callee: returns epoch_size >= 10000 or min(10000, num_kmers) with num_kmers >= 1 (compute_epoch_info::returned-epoch-size-non-zero)",
         }
         res_ = nz_report(b, {"$1"}, reviewed, "create")
@@ -225,7 +227,7 @@ def run(ctx):
         res2 = nz_report(eb, {"$2"} if False else set(), {}, "epoch", params_nz=("$0.segment_size",) if sites == [SRC] else ())
         # num_kmers ($2) = source_size / K >= 1 under source_size >= 16: passed by the single caller
         ce = dom.one_call(b, "compute_epoch_info")
-        okk = pv(ce["args"][2]) == "($1 / 16)"
+        okk = pv(ce["args"][2]) == "($1 >> 4)"
         ctx.check(okk, RK, "compute_epoch_info::num_kmers-at-least-1", H.loc(b, ce), "num_kmers = source_size / 16 with source_size >= 16")
         res2 = nz_report(eb, {"$2"} if okk else set(), {}, "epoch", params_nz=("$0.segment_size",) if sites == [SRC] else ())
         bad2 = [r for r in res2 if r[1] is None]
